@@ -47,13 +47,14 @@ type regionSpec struct {
 }
 
 type action struct {
-	Kind   string // "put" | "scatter" | "apply" (install the last scatter result in the cluster) | "schedule"
-	Region int    // index into Regions
-	Group  string
-	Stores []uint64 // put: the stores; Stores[0] is the leader
-	Sched  string   // schedule: scheduler type
-	Args   []string
-	Hot    []int // schedule (hot-region, shuffle-hot-region): regions reported as write hot spots before
+	Kind    string // "put" | "scatter" | "apply" (install the last scatter result in the cluster) | "schedule"
+	Region  int    // index into Regions
+	Group   string
+	Stores  []uint64 // put: the stores; Stores[0] is the leader
+	Sched   string   // schedule: scheduler type
+	Args    []string
+	Hot     []int // schedule (hot-region, shuffle-hot-region): regions reported as hot spots before
+	HotRead bool  // read hot spots instead of write hot spots
 }
 
 type history struct {
@@ -150,6 +151,19 @@ func genRegions(r *rng.R, spec gen10.ClusterSpec, n int, healthy bool, scatterMo
 	return out
 }
 
+func isTiflash(spec gen10.ClusterSpec, store uint64) bool {
+	for _, s := range spec.Stores {
+		if s.ID == store {
+			for _, l := range s.Labels {
+				if l[0] == "engine" && l[1] == "tiflash" {
+					return true
+				}
+			}
+		}
+	}
+	return false
+}
+
 var schedTypes = []string{schedulers.BalanceRegionType, schedulers.BalanceLeaderType, schedulers.ShuffleRegionType, schedulers.ShuffleLeaderType,
 	schedulers.EvictLeaderType, schedulers.GrantLeaderType, schedulers.LabelType, schedulers.ScatterRangeType, schedulers.ShuffleHotRegionType, schedulers.HotRegionType}
 
@@ -222,7 +236,7 @@ func genHistory(r *rng.R, scatter bool) history {
 			for _, p := range rg.Peers {
 				// ordinary stores only: Put on a tiflash store before the first scatter of a tiflash peer
 				// dereferences the not yet created engine context (nil) in the real code
-				if p.Role == 0 && r.Pct(80) {
+				if p.Role == 0 && !isTiflash(h.Spec, p.Store) && r.Pct(80) {
 					st = append(st, p.Store)
 				}
 			}
@@ -254,6 +268,7 @@ func genHistory(r *rng.R, scatter bool) history {
 				for k := 2 + r.Intn(3); k > 0; k-- {
 					a.Hot = append(a.Hot, r.Intn(len(h.Regions)))
 				}
+				a.HotRead = r.Pct(45)
 			}
 			h.Actions = append(h.Actions, a)
 		}
@@ -443,13 +458,22 @@ func runHistory(h history, emit emitFn, hidx int) []string {
 							fol = append(fol, p.GetStoreId())
 						}
 					}
-					iv := uint64(statistics.WriteReportInterval)
-					tc.AddLeaderRegionWithWriteInfo(rg.GetID(), rg.GetLeader().GetStoreId(), 512*1024*iv, 0, iv, fol)
+					if a.HotRead {
+						iv := uint64(statistics.ReadReportInterval)
+						tc.AddRegionWithReadInfo(rg.GetID(), rg.GetLeader().GetStoreId(), 512*1024*iv, 0, iv, fol)
+					} else {
+						iv := uint64(statistics.WriteReportInterval)
+						tc.AddLeaderRegionWithWriteInfo(rg.GetID(), rg.GetLeader().GetStoreId(), 512*1024*iv, 0, iv, fol)
+					}
 					regions[ri] = tc.GetRegion(rg.GetID())
 					lead[rg.GetLeader().GetStoreId()]++
 				}
 				for _, st := range tc.GetStores() {
-					tc.UpdateStorageWrittenBytes(st.GetID(), uint64(1+3*lead[st.GetID()])*1024*1024*statistics.StoreHeartBeatReportInterval)
+					if a.HotRead {
+						tc.UpdateStorageReadBytes(st.GetID(), uint64(1+3*lead[st.GetID()])*1024*1024*statistics.StoreHeartBeatReportInterval)
+					} else {
+						tc.UpdateStorageWrittenBytes(st.GetID(), uint64(1+3*lead[st.GetID()])*1024*1024*statistics.StoreHeartBeatReportInterval)
+					}
 				}
 				stores = bt.CoqStores()
 			}
